@@ -41,6 +41,9 @@ type Entry struct {
 func (e *Entry) Key() string    { return e.S.Name + "/" + e.D.Name }
 func (e *Entry) String() string { return e.Fn + "[" + e.S.Name + "," + e.D.Name + "]" }
 
+// MaxFix is the largest fixture construction order NewBlockShape knows.
+const MaxFix = 10
+
 // Entries lists the 169 built-in instantiations in a fixed order, then the 34 named ones.
 var Entries []*Entry
 var byKey = map[string]*Entry{}
@@ -143,6 +146,7 @@ func mk[S, D signal.SignalTypes](fn, s, d string, conv func(*signal.Buffer[S], *
 		}
 		var src, csrc *signal.Buffer[S] // src: written through; csrc: converted
 		var dst *signal.Buffer[D]
+		var lo *signal.Buffer[D] // fix 10: the window before dst in the same parent
 		size := -1
 		return func(inI []int64, inF []float64, outI []int64, outF []float64) {
 			n := len(inI)
@@ -199,6 +203,19 @@ func mk[S, D signal.SignalTypes](fn, s, d string, conv func(*signal.Buffer[S], *
 					gd.Append(dbuf)
 					base, dbuf = gs, gd
 				}
+				lo = nil
+				if fix == 10 {
+					// output in pieces: the destination is the second of two adjacent windows of one parent;
+					// after the conversion into it the same samples are converted into the first window
+					// from a source that goes on (with the samples in reverse order) beyond that
+					// window's length - a conversion must stop at the destination's length, whatever
+					// capacity lies behind it, so the results read from the second window stay what they were
+					la := a
+					la.Length, la.Capacity = 2*fr, 2*fr
+					base = signal.Alloc[S](la)
+					dpar := signal.Alloc[D](la)
+					lo, dbuf = dpar.Slice(0, fr), dpar.Slice(fr, 2*fr)
+				}
 				if fix == 9 && fr >= 1 {
 					// the source was converted into a shorter destination (one frame) before: a
 					// conversion must leave its source as it was, header included
@@ -210,7 +227,7 @@ func mk[S, D signal.SignalTypes](fn, s, d string, conv func(*signal.Buffer[S], *
 					dst.AppendSample(D(1)) // stale content a skipped conversion would leave behind
 				}
 				switch fix {
-				case 1:
+				case 1, 10:
 					csrc = base.Slice(0, fr)
 				case 2:
 					src = base.Slice(0, fr)
@@ -238,6 +255,13 @@ func mk[S, D signal.SignalTypes](fn, s, d string, conv func(*signal.Buffer[S], *
 				}
 			}
 			conv(csrc, dst)
+			if lo != nil {
+				off := lo.Len()
+				for i := 0; i < n; i++ {
+					src.SetSample(off+i, src.Sample(n-1-i))
+				}
+				conv(src, lo)
+			}
 			switch dk {
 			case kit.Float:
 				for i := 0; i < n; i++ {
